@@ -177,11 +177,10 @@ func typeSwitchTable(rel, fn, leanName string, consts map[string]int) func() str
 func init() {
 	hh := "trillian/ctfe/handlers.go"
 	ss := "serialization.go"
-	mtl := map[string]string{"len(chain)": "n", "etype": "etype", "X509LogEntryType": "acX509EntryType", "PrecertLogEntryType": "acPrecertEntryType",
-		"IsPreIssuer(issuer)": "issuerIsPreIssuer"}
+	mtl := map[string]string{"len($[]*x509.Certificate)": "n", "$LogEntryType": "etype", "X509LogEntryType": "acX509EntryType", "PrecertLogEntryType": "acPrecertEntryType"}
 	mtlC := map[string]string{"$LogEntryType": "etype", "X509LogEntryType": "acX509EntryType", "PrecertLogEntryType": "acPrecertEntryType"}
 	mk := func(name string, markers []string, params string) unit {
-		return unit{name, condKernel(ss, "MerkleTreeLeafFromChain", markers, name, params, Spec{Kind: "i64", Repl: mtl})}
+		return unit{name, semCond(ss, "MerkleTreeLeafFromChain", markers, name, params, Spec{Kind: "i64", Repl: mtl})}
 	}
 	register(genFile{name: "AddChain", imports: []string{"CTV.Basic.I64"}, units: []unit{
 		// ---- addChainInternal
@@ -195,7 +194,7 @@ func init() {
 		{"sctLeafSource", semStmtFact(hh, "addChainInternal", `tls\.Unmarshal\((.*),&\$decl\(ct\.MerkleTreeLeaf\)\)`, "sctLeafSource")},
 		{"sctBuiltFrom", semStmtFact(hh, "addChainInternal", `buildV1SCT\(\$\*logInfo\.signer,(.*)\)`, "sctBuiltFrom")},
 		// ---- ct.MerkleTreeLeafFromChain
-		mk("mtlEmpty", []string{"len(chain) == 0"}, "(n : Int)"),
+		mk("mtlEmpty", []string{"len($[]*x509.Certificate) == 0"}, "(n : Int)"),
 		// the X.509 entry is returned / the entry type is refused under these conditions on the entry type (reach conditions
 		// of the first successful return and of the "unknown LogEntryType" error, restricted to the conjuncts on `etype`)
 		{"mtlIsX509", semReach(ss, "MerkleTreeLeafFromChain", "func", firstOKReturn(ss, "MerkleTreeLeafFromChain"), []string{"$LogEntryType"},
@@ -203,16 +202,17 @@ func init() {
 		{"mtlNotPrecert", semReach(ss, "MerkleTreeLeafFromChain", "func",
 			func(r canonReturn) bool { return len(r.results) == 2 && strings.Contains(r.results[1], "unknownLogEntryType") }, []string{"$LogEntryType"},
 			"mtlNotPrecert", "(etype : Int)", Spec{Kind: "i64", Repl: mtlC})},
-		mk("mtlNoIssuer", []string{"len(chain) < 2"}, "(n : Int)"),
-		mk("mtlIsPreIssuer", []string{"IsPreIssuer(issuer)"}, "(issuerIsPreIssuer : Bool)"),
-		mk("mtlNoFinalIssuer", []string{"len(chain) < 3"}, "(n : Int)"),
-		{"mtlX509Idx", indexFact(ss, "MerkleTreeLeafFromChain", `&ASN1Cert\{Data: chain\[(\d+)\]\.Raw\}`, 0, "mtlX509Idx")},
-		{"mtlPrecertIdx", indexFact(ss, "MerkleTreeLeafFromChain", `cert := chain\[(\d+)\]`, 0, "mtlPrecertIdx")},
-		{"mtlIssuerIdx", indexFact(ss, "MerkleTreeLeafFromChain", `issuer := chain\[(\d+)\]`, 0, "mtlIssuerIdx")},
-		{"mtlFinalIssuerIdx", indexFact(ss, "MerkleTreeLeafFromChain", `issuer = chain\[(\d+)\]`, 0, "mtlFinalIssuerIdx")},
-		{"mtlKeyHashOf", exprFact(ss, "MerkleTreeLeafFromChain", `sha256\.Sum256\((.*)\)`, "mtlKeyHashOf")},
-		{"mtlTBSArgs", exprFact(ss, "MerkleTreeLeafFromChain", `x509\.BuildPrecertTBS\((.*)\)`, "mtlTBSArgs")},
-		{"mtlFields", keyValues(ss, "MerkleTreeLeafFromChain", "mtlFields")},
+		mk("mtlNoIssuer", []string{"len($[]*x509.Certificate) < 2"}, "(n : Int)"),
+		{"mtlIsPreIssuer", semCond(ss, "MerkleTreeLeafFromChain", []string{"IsPreIssuer($var($[]*x509.Certificate[1]))"}, "mtlIsPreIssuer", "(issuerIsPreIssuer : Bool)",
+			Spec{Kind: "i64", Repl: map[string]string{"IsPreIssuer($var($[]*x509.Certificate[1]))": "issuerIsPreIssuer"}})},
+		mk("mtlNoFinalIssuer", []string{"len($[]*x509.Certificate) < 3"}, "(n : Int)"),
+		{"mtlX509Idx", semAssignFact(ss, "MerkleTreeLeafFromChain", `=&ASN1Cert\{Data:(?:\$elem|\$\[\]\*x509\.Certificate\[)(\d+)\]?\.Raw\}$`, 0, 1, true, "mtlX509Idx")},
+		{"mtlPrecertIdx", semAssignFact(ss, "MerkleTreeLeafFromChain", `=x509\.BuildPrecertTBS\((?:\$elem|\$\[\]\*x509\.Certificate\[)(\d+)\]?\.RawTBSCertificate,`, 0, 1, true, "mtlPrecertIdx")},
+		{"mtlIssuerIdx", semAssignFact(ss, "MerkleTreeLeafFromChain", `^\$var\(\$\[\]\*x509\.Certificate\[\d+\]\)=\$\[\]\*x509\.Certificate\[(\d+)\]$`, 0, 2, true, "mtlIssuerIdx")},
+		{"mtlFinalIssuerIdx", semAssignFact(ss, "MerkleTreeLeafFromChain", `^\$var\(\$\[\]\*x509\.Certificate\[\d+\]\)=\$\[\]\*x509\.Certificate\[(\d+)\]$`, 1, 2, true, "mtlFinalIssuerIdx")},
+		{"mtlKeyHashOf", semAssignFact(ss, "MerkleTreeLeafFromChain", `sha256\.Sum256\((\$var\(\$\[\]\*x509\.Certificate\[\d+\]\)\.\w+)\)`, 0, 1, false, "mtlKeyHashOf")},
+		{"mtlTBSArgs", semAssignFact(ss, "MerkleTreeLeafFromChain", `=x509\.BuildPrecertTBS\((.*)\)$`, 0, 1, false, "mtlTBSArgs")},
+		{"mtlFields", semKeyValues(ss, "MerkleTreeLeafFromChain", "mtlFields")},
 		// ---- util.buildLogLeaf, directIssuanceChainService.BuildLogLeaf
 		{"idHashOf", semStmtFact("trillian/util/log_leaf.go", "buildLogLeaf", `sha256\.Sum256\((.*)\)`, "idHashOf")},
 		{"leafCertIdx", indexFact("trillian/ctfe/services.go", "directIssuanceChainService.BuildLogLeaf", `util\.BuildLogLeaf\(logPrefix, \*merkleLeaf, 0, raw\[(\d+)\], raw\[(\d+):\], isPrecert\)`, 0, "leafCertIdx")},
